@@ -19,3 +19,184 @@ Example c16_example_cl :
   framing asfound [mkH (s "Content-Length") (s "+5")] = FrOk (KBuffered 5) (Some 5%N) false /\
   framing asfound [mkH (s "Content-Length") (s "5, 5")] = FrOk KEmpty None false.
 Proof. vm_compute. repeat split; reflexivity. Qed.
+
+(* ======================================================================================== *)
+From TH Require Import Http.LineFacts Http.HeadFacts Http.FramingFacts Http.ServeRefuseFacts.
+Open Scope char_scope.
+
+(* ---- (a) header lines ---- *)
+(* bad_header_line l: l has no colon, or a whitespace byte occurs before its first colon *)
+Theorem c16_ws_in_name_rejected : forall l : bytes,
+  bad_header_line l = true -> parse_header (trim_end l) = None.
+Proof. exact bad_line_rejected. Qed.
+Print Assumptions c16_ws_in_name_rejected.
+
+(* ... and nothing else is refused *)
+Theorem c16_header_line_exact : forall l : bytes,
+  parse_header (trim_end l) = None <-> bad_header_line l = true.
+Proof. intros l. rewrite parse_header_trim_end. apply parse_header_none. Qed.
+Print Assumptions c16_header_line_exact.
+
+(* the shapes the property names *)
+Theorem c16_shapes :
+  (forall l, nosep ":" l = true -> bad_header_line l = true) /\                     (* no colon *)
+  (forall c l, is_ws c = true -> bad_header_line (c :: l) = true) /\                (* folding *)
+  (forall n r, nosep ":" n = true -> existsb is_ws n = true ->
+               bad_header_line (n ++ ":" :: r) = true).          (* blank in / after the name *)
+Proof. split; [exact bad_no_colon|split; [exact bad_leading_ws|exact bad_ws_before_colon]]. Qed.
+Print Assumptions c16_shapes.
+
+(* a valid request line, any number of accepted header lines, a refused line, then ANY bytes *)
+Theorem c16_head_rejected : forall rl m u ver goods bad tail,
+  all_ascii rl = true -> no_crlf rl = true -> parse_request_line (trim rl) = Some (m, u, ver) ->
+  forallb good_line goods = true ->
+  all_ascii bad = true -> no_crlf bad = true -> bad <> [] -> bad_header_line bad = true ->
+  read_head fixed (rl ++ CRLF ++ lines goods ++ bad ++ CRLF ++ tail) = HeadBadHeader ver.
+Proof. exact read_head_bad_header. Qed.
+Print Assumptions c16_head_rejected.
+
+(* ---- (b) Content-Length ---- *)
+Theorem c16_bad_content_length_rejected : forall (hs : list header) (v : bytes),
+  header_value "Content-Length" hs = Some v ->
+  v = [] \/ forallb is_digit v = false \/ (USIZE_BOUND <= dec_value v)%N ->
+  framing fixed hs = FrBadContentLength.
+Proof. exact bad_content_length_rejected. Qed.
+Print Assumptions c16_bad_content_length_rejected.
+
+Theorem c16_bad_content_length_exact : forall hs : list header,
+  framing fixed hs = FrBadContentLength <->
+  exists v, header_value "Content-Length" hs = Some v /\ cl_ok v = false.
+Proof. exact bad_content_length. Qed.
+Print Assumptions c16_bad_content_length_exact.
+
+Theorem c16_good_content_length_accepted : forall (hs : list header) (v : bytes),
+  header_value "Content-Length" hs = Some v ->
+  v <> [] -> forallb is_digit v = true -> (dec_value v < USIZE_BOUND)%N ->
+  framing fixed hs <> FrBadContentLength /\
+  forall k bl e, framing fixed hs = FrOk k bl e ->
+    bl = match header_value "Transfer-Encoding" hs with Some _ => None | None => Some (dec_value v) end.
+Proof. exact good_content_length_accepted. Qed.
+Print Assumptions c16_good_content_length_accepted.
+
+(* the first header whose name matches case-insensitively decides *)
+Theorem c16_first_content_length_decides : forall pre h post,
+  forallb (fun h' => negb (equiv "Content-Length" h')) pre = true -> equiv "Content-Length" h = true ->
+  header_value "Content-Length" (pre ++ h :: post) = Some (hvalue h).
+Proof. exact (header_value_first "Content-Length"). Qed.
+Print Assumptions c16_first_content_length_decides.
+
+(* ---- (c) one iteration of the connection loop, in any state ---- *)
+Theorem c16_serve_rejects : forall c date f script dflt st wire reqs al ok,
+  (forall ver, read_head c (sbytes st) = HeadBadHeader ver ->
+     serve_loop c date (S f) script dflt st wire reqs al ok
+     = mkO (frev reqs) (wire ++ error_bytes date 400 ver false) CClosed al ok) /\
+  (forall m url ver hs rest,
+     read_head c (sbytes st) = HeadOk m url ver hs rest -> framing c hs = FrBadContentLength ->
+     serve_loop c date (S f) script dflt st wire reqs al ok
+     = mkO (frev reqs) (wire ++ error_bytes date 400 ver false) CClosed al ok).
+Proof. intros. split; [apply step_bad_header|apply step_bad_content_length]. Qed.
+Print Assumptions c16_serve_rejects.
+
+(* what is appended is a response whose status line says 400 *)
+Theorem c16_error_bytes_400 : forall date ver nb, exists more,
+  error_bytes date 400 ver nb =
+  s "HTTP/" ++ print_dec (fst ver) ++ s "." ++ print_dec (snd ver) ++ s " 400 Bad Request" ++ CRLF ++ more.
+Proof.
+  intros. destruct (error_bytes_status_line date 400 ver nb) as [more E]. exists more. rewrite E.
+  replace (s " 400 Bad Request") with ([SP] ++ print_dec 400 ++ [SP] ++ Reason.reason_phrase 400)
+    by (vm_compute; reflexivity).
+  rewrite <- !app_assoc. reflexivity.
+Qed.
+Print Assumptions c16_error_bytes_400.
+
+(* ---- the whole connection, the smuggling head first ---- *)
+Theorem c16_serve_bad_header_line : forall date script dflt eof rl m u ver goods bad tail,
+  all_ascii rl = true -> no_crlf rl = true -> parse_request_line (trim rl) = Some (m, u, ver) ->
+  forallb good_line goods = true ->
+  all_ascii bad = true -> no_crlf bad = true -> bad <> [] -> bad_header_line bad = true ->
+  serve fixed date script dflt (rl ++ CRLF ++ lines goods ++ bad ++ CRLF ++ tail) eof
+  = mkO [] (error_bytes date 400 ver false) CClosed [] true.
+Proof. intros. apply serve_bad_header. now apply (read_head_bad_header rl m u). Qed.
+Print Assumptions c16_serve_bad_header_line.
+
+Theorem c16_serve_bad_content_length : forall date script dflt eof rl m u ver goods v tail,
+  all_ascii rl = true -> no_crlf rl = true -> parse_request_line (trim rl) = Some (m, u, ver) ->
+  forallb good_line goods = true ->
+  header_value "Content-Length" (map hdr_of goods) = Some v ->
+  v = [] \/ forallb is_digit v = false \/ (USIZE_BOUND <= dec_value v)%N ->
+  serve fixed date script dflt (rl ++ CRLF ++ lines goods ++ CRLF ++ tail) eof
+  = mkO [] (error_bytes date 400 ver false) CClosed [] true.
+Proof.
+  intros date script dflt eof rl m u ver goods v tail A C P G H B.
+  apply (serve_bad_content_length _ _ _ _ _ m u ver (map hdr_of goods) tail).
+  - now apply read_head_complete.
+  - now apply (bad_content_length_rejected _ v).
+Qed.
+Print Assumptions c16_serve_bad_content_length.
+
+(* ---- the hypotheses are satisfiable ---- *)
+Example c16_example_hyps_fold :
+  let rl := s "POST /a HTTP/1.1" in let goods := [s "X: a"] in let bad := s " Content-Length: 5" in
+  c16_fold_input = rl ++ CRLF ++ lines goods ++ bad ++ CRLF ++ (CRLF ++ s "hello") /\
+  all_ascii rl = true /\ no_crlf rl = true /\
+  parse_request_line (trim rl) = Some (s "POST", s "/a", (1, 1)%N) /\
+  forallb good_line goods = true /\
+  all_ascii bad = true /\ no_crlf bad = true /\ bad_header_line bad = true.
+Proof. vm_compute. repeat split; reflexivity. Qed.
+
+Example c16_example_bad_lines :
+  map bad_header_line [s "Content-Length : 5"; s "Content Length: 5"; s "no colon here"; HT :: s "x: y"; s " "; s ": v"; s "A:"]
+  = [true; true; true; true; true; false; false].
+Proof. vm_compute. reflexivity. Qed.
+
+Example c16_example_hyps_cl :
+  let goods := [s "Host: x"; s "content-LENGTH: 18446744073709551616"; s "Content-Length: 3"; s "Transfer-Encoding: chunked"] in
+  forallb good_line goods = true /\
+  header_value "Content-Length" (map hdr_of goods) = Some (s "18446744073709551616") /\
+  dec_value (s "18446744073709551616") = USIZE_BOUND /\
+  forallb is_digit (s "18446744073709551616") = true /\
+  framing fixed (map hdr_of goods) = FrBadContentLength.
+Proof. vm_compute. repeat split; reflexivity. Qed.
+
+Example c16_example_serve :
+  let o := serve fixed (s "D") [] (mkA [] (FRespond 200 (s "ok") true))
+             (c16_fold_input ++ s "GET /smuggled HTTP/1.1" ++ CRLF ++ CRLF) true in
+  o_reqs o = [] /\ o_end o = CClosed /\ firstn 26 (o_wire o) = s "HTTP/1.1 400 Bad Request" ++ CRLF.
+Proof. vm_compute. repeat split; reflexivity. Qed.
+
+(* ---- the smuggling head at any position: after k well-formed requests without a body that keep
+   the connection alive (quiet_run, Http/ServeGoodFacts.v), whatever the handler does with them ---- *)
+From TH Require Import Http.ServeGoodFacts.
+Theorem c16_serve_rejects_after_requests : forall date script dflt eof goods x ver,
+  quiet_run goods = true ->
+  (read_head fixed x = HeadBadHeader ver \/
+   exists m u hs rest, read_head fixed x = HeadOk m u ver hs rest /\ framing fixed hs = FrBadContentLength) ->
+  exists w ds ok', Forall2 delivered_as (map fst goods) ds /\
+    serve fixed date script dflt (render_run goods ++ x) eof
+    = mkO ds (w ++ error_bytes date 400 ver false) CClosed [] ok'.
+Proof. exact serve_run_then_400. Qed.
+Print Assumptions c16_serve_rejects_after_requests.
+
+Definition c16_get (target : string) : req_head * list (bytes * bytes) :=
+  (mkRq (s "GET") (s target) (1, 1)%N [(s "Host", s "h"); (s "Content-Length", s "0")], [([SP], []); ([SP], [HT])]).
+Example c16_example_after_requests :
+  quiet_run [c16_get "/1"; c16_get "/2"] = true /\
+  let o := serve fixed (s "D") [mkA [(10%N, 4%nat)] FDrop] (mkA [] (FRespond 200 (s "ok") true))
+             (render_run [c16_get "/1"; c16_get "/2"] ++ c16_fold_input ++ s "GET /smuggled HTTP/1.1" ++ CRLF ++ CRLF) false in
+  map d_url (o_reqs o) = [s "/1"; s "/2"] /\ o_end o = CClosed.
+Proof. vm_compute. repeat split; reflexivity. Qed.
+
+(* the tree as found interprets both: the folded line becomes a Content-Length header that frames
+   the body (D8), "+5" frames five bytes (D9) — with a front end that ignores them, the next
+   "request" is taken from what the front end considers body bytes *)
+Example c16_asfound_refuted :
+  let a := mkA [(10%N, 10%nat)] (FRespond 200 (s "ok") true) in
+  let o8 := serve asfound (s "D") [] a (c16_fold_input ++ s "GET /next HTTP/1.1" ++ CRLF ++ CRLF) true in
+  let o9 := serve asfound (s "D") [] a
+              (s "POST /a HTTP/1.1" ++ CRLF ++ s "Content-Length: +5" ++ CRLF ++ CRLF ++ s "hello"
+               ++ s "GET /next HTTP/1.1" ++ CRLF ++ CRLF) true in
+  map (fun d => (d_url d, d_read d)) (o_reqs o8) = [(s "/a", s "hello"); (s "/next", [])] /\
+  map (fun d => (d_url d, d_read d)) (o_reqs o9) = [(s "/a", s "hello"); (s "/next", [])] /\
+  parse_header (trim (s " Content-Length: 5")) = Some (mkH (s "Content-Length") (s "5")) /\
+  parse_header (trim_end (s " Content-Length: 5")) = None.
+Proof. vm_compute. repeat split; reflexivity. Qed.
